@@ -108,6 +108,11 @@ def judge_case(mod, case, obs):
             raise HarnessError("op-server rejected a request: %s (%s)" % (o["harness_error"], json.dumps(case)[:300]))
     fn = mod.JUDGES[case["j"]]
     v = fn(case, obs)
+    for o in obs:
+        sd = o.get("stdin_delivery")
+        if sd:
+            # observation class only: how the standard input of this execution was delivered (see core.Cli.run)
+            v.bucket("stdin-delivered-in-%s" % ("one-piece" if sd["pieces"] == 1 else "several-pieces-with-pauses"))
     if any("timeout" in o for o in obs):
         # still computing when the generous wall-clock watchdog fired: inconclusive for this case, never a violation
         v.bucket("watchdog-timeout-inconclusive")
